@@ -56,11 +56,15 @@ TIMEOUTS = [0]
 
 def timed(f, seconds=2.0):
     """f() under an alarm: a decoder that does not come back is reported as the error 'Timeout'
-    (after 25 of them every further call gets 0.2 s only, so that a broken tree still ends)"""
+    (after 25 of them every further call gets 0.05 s only, so that a broken tree still ends)"""
     old = signal.signal(signal.SIGALRM, _alarm)
-    signal.setitimer(signal.ITIMER_REAL, seconds if TIMEOUTS[0] < 25 else min(seconds, 0.2))
+    signal.setitimer(signal.ITIMER_REAL, seconds if TIMEOUTS[0] < 25 else min(seconds, 0.05))
     try:
-        return f()
+        r = f()
+        if r == ("err", "Other:_Timeout"):                # vlib.guarded caught the alarm inside f
+            TIMEOUTS[0] += 1
+            return ("err", "Timeout")
+        return r
     except _Timeout:
         TIMEOUTS[0] += 1
         return ("err", "Timeout")
